@@ -1,6 +1,8 @@
 import Goyang.Model.Identity
 import Goyang.Spec.Identity
 import Goyang.Lemmas.IdentitySurvEq
+import Goyang.Spec.IdentityReport
+import Goyang.Lemmas.IdentityReports
 /-
 C11 — each identity lists exactly its transitive derivations, once, in fixed order.
 Property theorems only; helper lemmas live in Goyang/Lemmas/Identity*.lean.
@@ -75,6 +77,9 @@ open Goyang.Lemmas.Identity (LinkOK Hyp RegOK resolveIdentities_graph vtxLt_iff 
   resolveIdentities_survivors findIdentityBase_survivors survivorGraph_facts survivors_nodup derives_left_vertexS IdentifierNames
   noColon_of_identifierNames buildDict_eq dictStep walk_congr foldlM_congr_opt mem_modulesByKey
   GraphPerm survivorGraph_perm_graph graph_some survivorGraph_some registrations_some)
+open Goyang.Spec.Identity (undefinedBaseClasses undefinedBases cycleClass locatedAt judgeReports Verdict)
+open Goyang.Lemmas.Identity (resolveIdentities_reports survivor_dangling mem_undefinedBases locatedAt_at
+  judgeReports_holds fullStmts survivors_perm_full)
 
 /-- The include statements of every part of the schema are linked (see the header). -/
 abbrev Linked (r : Registry) (lk : Link) : Prop := LinkOK r lk
@@ -976,5 +981,351 @@ example : ∃ G, survivorGraph exR3 = some G ∧ OneStatementPerVertex G := by
 the module table): the specification still answers. -/
 example : ∃ G, survivorGraph { mods := [⟨7, exSubSB⟩, ⟨7, exModA⟩], modules := [("zz", 3), ("a", 7)] } = some G :=
   (specification_answers _).2.2
+
+/-! ### which errors: every cycle, every undefined base — and nothing else
+
+`errors_iff` / `identity_errors` only say that the error list is non-empty exactly when the schema
+has a defect.  The theorems of this section say WHICH errors the model reports, defect by defect,
+over the surviving statements `survivors R` (`R = registrations r`; with one statement per vertex:
+all identity statements): an entry `x = (vertex, declaring (sub)module, identity statement)`.
+
+* every vertex derived from itself gets a `cycle` error at its OWN identity statement
+  (`cycle_reported_per_member`), so every cyclic component is named by an error located at one of
+  its members — a cycle derived from another cycle by its own members, not by the report of the
+  upper one (`cycle_reported_per_component`);
+* every dangling base of the graph is answered by an error of class identity-base-local /
+  identity-base-remote / identity-prefix located at the module or submodule statement of the text
+  that writes it (`undefined_base_reported`);
+* nothing else carries these classes: a `cycle` error sits at the identity statement of a vertex
+  derived from itself (`cycle_errors_sound`), an undefined-base error at the text of a base
+  statement that is a dangling base of the graph (`base_errors_sound`);
+* hence the runner's executable verdict `Spec.Identity.judgeReports` answers `holds` on the model's
+  own errors, for every loaded registry and map order (`judgeReports_holds_of_model`,
+  `judgeReports_holds_of_run`): a `violates` of the per-defect verdict on Go's errors is always a
+  difference between Go and the model. -/
+
+/-- All four per-defect statements at once, for the one result `resolveIdentities` returns. -/
+theorem errors_are_exactly_the_defects (r : Registry) (lk : Link) (hl : Linked r lk) (hw : LoadedOK r)
+    (G : Graph) (hG : survivorGraph r = some G) (R : List (Vertex × Mod × Stmt)) (hR : registrations r = some R)
+    (o : Oracle) (ho : o.Valid) :
+    ∃ res, resolveIdentities o r lk (fun _ => []) = some res ∧
+      (∀ x ∈ survivors R, Derives G x.1 x.1 → Err.at_ x.2.2 cycleClass ∈ res.errs) ∧
+      (∀ x ∈ survivors R, ∀ base ∈ x.2.2.all "base",
+        (¬ ∃ b, names r x.2.1 base.arg = some b ∧ b ∈ G.verts) →
+          ∃ c ∈ undefinedBaseClasses, Err.at_ x.2.1.stmt c ∈ res.errs) ∧
+      (∀ e ∈ res.errs, e.cls = cycleClass →
+        ∃ x ∈ survivors R, e = Err.at_ x.2.2 cycleClass ∧ Derives G x.1 x.1) ∧
+      (∀ e ∈ res.errs, e.cls ∈ undefinedBaseClasses →
+        ∃ x ∈ survivors R, ∃ base ∈ x.2.2.all "base", e = Err.at_ x.2.1.stmt e.cls ∧
+          ¬ ∃ b, names r x.2.1 base.arg = some b ∧ b ∈ G.verts) := by
+  obtain ⟨res, R', hres, hR', h⟩ :=
+    resolveIdentities_reports o ho r lk hl hw.modulesOnly hw.keys hw.noColon G hG
+  rw [hR] at hR'
+  cases hR'
+  exact ⟨res, hres, h⟩
+
+/-- Every vertex that is derived from itself gets a `cycle` error at its own identity statement:
+one report per MEMBER of every cycle, under every map order. -/
+theorem cycle_reported_per_member (r : Registry) (lk : Link) (hl : Linked r lk) (hw : LoadedOK r)
+    (G : Graph) (hG : survivorGraph r = some G) (R : List (Vertex × Mod × Stmt)) (hR : registrations r = some R)
+    (o : Oracle) (ho : o.Valid) :
+    ∃ res, resolveIdentities o r lk (fun _ => []) = some res ∧
+      ∀ x ∈ survivors R, Derives G x.1 x.1 →
+        ∃ e ∈ res.errs, e.cls = cycleClass ∧ locatedAt e x.2.2 = true := by
+  obtain ⟨res, hres, hA, _⟩ := errors_are_exactly_the_defects r lk hl hw G hG R hR o ho
+  exact ⟨res, hres, fun x hx hd => ⟨_, hA x hx hd, rfl, locatedAt_at _ _⟩⟩
+
+/-- The error clause, cycles: for every vertex `v` that reaches itself the errors hold a `cycle`
+error located at the identity statement of a member of ITS cycle (a vertex derived from `v` from
+which `v` is derived).  A cycle derived from another cycle is answered by an error at one of its
+own members. -/
+theorem cycle_reported_per_component (r : Registry) (lk : Link) (hl : Linked r lk) (hw : LoadedOK r)
+    (G : Graph) (hG : survivorGraph r = some G) (R : List (Vertex × Mod × Stmt)) (hR : registrations r = some R)
+    (o : Oracle) (ho : o.Valid) :
+    ∃ res, resolveIdentities o r lk (fun _ => []) = some res ∧
+      ∀ v, Derives G v v → ∃ x ∈ survivors R, Derives G x.1 v ∧ Derives G v x.1 ∧
+        ∃ e ∈ res.errs, e.cls = cycleClass ∧ locatedAt e x.2.2 = true := by
+  obtain ⟨res, hres, hA⟩ := cycle_reported_per_member r lk hl hw G hG R hR o ho
+  obtain ⟨ps, R', hR', sf⟩ := survivorGraph_facts hG
+  rw [hR] at hR'
+  cases hR'
+  refine ⟨res, hres, ?_⟩
+  intro v hv
+  obtain ⟨x, hx, hxv⟩ := (sf.verts v).mp (derives_left_vertexS sf hv)
+  subst hxv
+  exact ⟨x, hx, hv, hv, hA x hx hv⟩
+
+/-- The error clause, undefined bases: every dangling base `(identity, argument)` of the graph is a
+base statement of a surviving identity statement, and the errors hold one of class
+identity-base-local / identity-base-remote / identity-prefix located at the module or submodule
+statement of the text that writes it. -/
+theorem undefined_base_reported (r : Registry) (lk : Link) (hl : Linked r lk) (hw : LoadedOK r)
+    (G : Graph) (hG : survivorGraph r = some G) (R : List (Vertex × Mod × Stmt)) (hR : registrations r = some R)
+    (o : Oracle) (ho : o.Valid) :
+    ∃ res, resolveIdentities o r lk (fun _ => []) = some res ∧
+      ∀ va ∈ G.dangling, ∃ x ∈ survivors R, x.1 = va.1 ∧ (∃ b ∈ x.2.2.all "base", b.arg = va.2) ∧
+        ∃ e ∈ res.errs, e.cls ∈ undefinedBaseClasses ∧ locatedAt e x.2.1.stmt = true := by
+  obtain ⟨res, hres, _, hB, _⟩ := errors_are_exactly_the_defects r lk hl hw G hG R hR o ho
+  refine ⟨res, hres, ?_⟩
+  rintro ⟨v, a⟩ hva
+  obtain ⟨m, hu⟩ := (survivor_dangling hG hR v a).mp hva
+  obtain ⟨x, hx, b, hb, he, hno⟩ := mem_undefinedBases.mp hu
+  simp only [Prod.mk.injEq] at he
+  obtain ⟨hv, _, ha⟩ := he
+  obtain ⟨c, hc, hmem⟩ := hB x hx b hb hno
+  exact ⟨x, hx, hv.symm, ⟨b, hb, ha.symm⟩, _, hmem, hc, locatedAt_at _ _⟩
+
+/-- Soundness of the cycle reports: every error of class `cycle` is located at the surviving
+identity statement of a vertex that is derived from itself. -/
+theorem cycle_errors_sound (r : Registry) (lk : Link) (hl : Linked r lk) (hw : LoadedOK r)
+    (G : Graph) (hG : survivorGraph r = some G) (R : List (Vertex × Mod × Stmt)) (hR : registrations r = some R)
+    (o : Oracle) (ho : o.Valid) :
+    ∃ res, resolveIdentities o r lk (fun _ => []) = some res ∧
+      ∀ e ∈ res.errs, e.cls = cycleClass →
+        ∃ x ∈ survivors R, e = Err.at_ x.2.2 cycleClass ∧ Derives G x.1 x.1 := by
+  obtain ⟨res, hres, _, _, hC, _⟩ := errors_are_exactly_the_defects r lk hl hw G hG R hR o ho
+  exact ⟨res, hres, hC⟩
+
+/-- Soundness of the undefined-base reports: every error of one of the three classes is located at
+the (sub)module statement of a text in which a surviving identity statement has a base statement
+that is a dangling base of the graph. -/
+theorem base_errors_sound (r : Registry) (lk : Link) (hl : Linked r lk) (hw : LoadedOK r)
+    (G : Graph) (hG : survivorGraph r = some G) (R : List (Vertex × Mod × Stmt)) (hR : registrations r = some R)
+    (o : Oracle) (ho : o.Valid) :
+    ∃ res, resolveIdentities o r lk (fun _ => []) = some res ∧
+      ∀ e ∈ res.errs, e.cls ∈ undefinedBaseClasses →
+        ∃ x ∈ survivors R, ∃ b ∈ x.2.2.all "base", e = Err.at_ x.2.1.stmt e.cls ∧
+          (x.1, b.arg) ∈ G.dangling := by
+  obtain ⟨res, hres, _, _, _, hD⟩ := errors_are_exactly_the_defects r lk hl hw G hG R hR o ho
+  refine ⟨res, hres, ?_⟩
+  intro e he hcls
+  obtain ⟨x, hx, b, hb, heq, hno⟩ := hD e he hcls
+  exact ⟨x, hx, b, hb, heq,
+    (survivor_dangling hG hR x.1 b.arg).mpr ⟨x.2.1, mem_undefinedBases.mpr ⟨x, hx, b, hb, rfl, hno⟩⟩⟩
+
+/-- The runner's per-defect verdict answers `holds` on the model's own errors — and on every error
+list that contains them. -/
+theorem judgeReports_holds_of_model (r : Registry) (lk : Link) (hl : Linked r lk) (hw : LoadedOK r)
+    (G : Graph) (hG : survivorGraph r = some G) (R : List (Vertex × Mod × Stmt)) (hR : registrations r = some R)
+    (o : Oracle) (ho : o.Valid) :
+    ∃ res, resolveIdentities o r lk (fun _ => []) = some res ∧
+      ∀ errs, (∀ e ∈ res.errs, e ∈ errs) → judgeReports r G (survivors R) errs = Verdict.holds := by
+  obtain ⟨res, hres, hA, hB, _⟩ := errors_are_exactly_the_defects r lk hl hw G hG R hR o ho
+  obtain ⟨ps, R', hR', sf⟩ := survivorGraph_facts hG
+  rw [hR] at hR'
+  cases hR'
+  refine ⟨res, hres, ?_⟩
+  intro errs hsub
+  apply judgeReports_holds
+  · intro v hv
+    exact (sf.verts v).mp (derives_left_vertexS sf hv)
+  · intro x hx hd
+    exact ⟨_, hsub _ (hA x hx hd), rfl, locatedAt_at _ _⟩
+  · intro u hu
+    obtain ⟨x, hx, b, hb, rfl, hno⟩ := mem_undefinedBases.mp hu
+    obtain ⟨c, hc, hmem⟩ := hB x hx b hb hno
+    exact ⟨_, hsub _ hmem, hc, locatedAt_at _ _⟩
+
+/-- The same from the loaded registry, for what `Process` returns: either an include/import is
+reported missing, or the verdict on the errors of `resolveIdentities`, and on the whole error list
+of `Process` (`processErrs`), is `holds`. -/
+theorem judgeReports_holds_of_run (r : Registry) (hw : LoadedOK r) (G : Graph) (hG : survivorGraph r = some G)
+    (R : List (Vertex × Mod × Stmt)) (hR : registrations r = some R) (o : Oracle) (ho : o.Valid) :
+    (∃ errs, run o r = .linkFailed errs ∧ errs ≠ []) ∨
+    (∃ res, run o r = .done res (identityrefLeaves r res.dict) ∧
+      judgeReports r G (survivors R) res.errs = Verdict.holds ∧
+      judgeReports r G (survivors R) (processErrs r res (identityrefLeaves r res.dict)) = Verdict.holds) := by
+  obtain ⟨lk, lerrs, hlink, hlinked⟩ := linkAll_spec o ho r
+  unfold run
+  simp only [hlink]
+  cases lerrs with
+  | cons e es => exact Or.inl ⟨e :: es, by simp, by simp⟩
+  | nil =>
+    right
+    have hl : Linked r lk := hlinked rfl
+    obtain ⟨res, hres, hj⟩ := judgeReports_holds_of_model r lk hl hw G hG R hR o ho
+    refine ⟨res, by simp [hres], hj _ (fun _ h => h), hj _ ?_⟩
+    intro e he
+    unfold processErrs
+    simp only
+    split
+    · rename_i hemp
+      have : res.errs ++ typedefErrs r res.dict = [] := by simpa using hemp
+      rw [(List.append_eq_nil_iff.mp this).1] at he
+      cases he
+    · exact List.mem_append_left _ he
+
+/-! The same for the first group (one identity statement per vertex, `graph r`): the statements are
+all identity statements of the parts of the schema — the list the driver hands to `judgeReports`
+when no vertex has two statements. -/
+
+/-- Every identity statement of the parts `ps` of the schema: (vertex, declaring (sub)module,
+statement). -/
+abbrev identityStatements (r : Registry) (ps : List Mod) : List (Vertex × Mod × Stmt) := fullStmts r ps
+
+/-- `errors_are_exactly_the_defects` over `graph r` and all identity statements of the schema, under
+hypothesis (c). -/
+theorem errors_are_exactly_the_defects_one_per_vertex (r : Registry) (lk : Link) (hl : Linked r lk)
+    (hw : WellFormed r) (hk : ModuleKeysDistinct r) (G : Graph) (hG : graph r = some G)
+    (ps : List Mod) (hps : Goyang.Spec.Identity.parts r = some ps) (o : Oracle) (ho : o.Valid) :
+    ∃ res, resolveIdentities o r lk (fun _ => []) = some res ∧
+      (∀ x ∈ identityStatements r ps, Derives G x.1 x.1 → Err.at_ x.2.2 cycleClass ∈ res.errs) ∧
+      (∀ x ∈ identityStatements r ps, ∀ base ∈ x.2.2.all "base",
+        (¬ ∃ b, names r x.2.1 base.arg = some b ∧ b ∈ G.verts) →
+          ∃ c ∈ undefinedBaseClasses, Err.at_ x.2.1.stmt c ∈ res.errs) ∧
+      (∀ e ∈ res.errs, e.cls = cycleClass →
+        ∃ x ∈ identityStatements r ps, e = Err.at_ x.2.2 cycleClass ∧ Derives G x.1 x.1) ∧
+      (∀ e ∈ res.errs, e.cls ∈ undefinedBaseClasses →
+        ∃ x ∈ identityStatements r ps, ∃ base ∈ x.2.2.all "base", e = Err.at_ x.2.1.stmt e.cls ∧
+          ¬ ∃ b, names r x.2.1 base.arg = some b ∧ b ∈ G.verts) := by
+  obtain ⟨G', hG', hp⟩ := survivor_graph_is_graph r G hG (hw.one G hG)
+  obtain ⟨R, hR⟩ := registrations_some r
+  obtain ⟨ps', gf⟩ := graph_facts hG
+  have hpe : ps' = ps := by
+    have := gf.parts
+    rw [hps] at this
+    cases this
+    rfl
+  subst hpe
+  have hone : ((ps'.flatMap (Goyang.Spec.Identity.vertexStmts r)).map (·.1)).Nodup := by
+    rw [← gf.vertsEq]; exact hw.one G hG
+  have hperm := survivors_perm_full hps hR hone
+  have hv : ∀ b, b ∈ G'.verts ↔ b ∈ G.verts := fun _ => hp.verts.mem_iff
+  have hno : ∀ (m : Mod) (a : String), (¬ ∃ b, names r m a = some b ∧ b ∈ G.verts) ↔
+      (¬ ∃ b, names r m a = some b ∧ b ∈ G'.verts) := by
+    intro m a
+    constructor
+    · rintro h ⟨b, hb, hm⟩; exact h ⟨b, hb, (hv b).mp hm⟩
+    · rintro h ⟨b, hb, hm⟩; exact h ⟨b, hb, (hv b).mpr hm⟩
+  obtain ⟨res, hres, hA, hB, hC, hD⟩ :=
+    errors_are_exactly_the_defects r lk hl ⟨hw.reg, hk, hw.noColon⟩ G' hG' R hR o ho
+  refine ⟨res, hres, ?_, ?_, ?_, ?_⟩
+  · intro x hx hd
+    exact hA x (hperm.mem_iff.mpr hx) ((hp.derives_iff _ _).mpr hd)
+  · intro x hx b hb h
+    exact hB x (hperm.mem_iff.mpr hx) b hb ((hno _ _).mp h)
+  · intro e he hc
+    obtain ⟨x, hx, heq, hd⟩ := hC e he hc
+    exact ⟨x, hperm.mem_iff.mp hx, heq, (hp.derives_iff _ _).mp hd⟩
+  · intro e he hc
+    obtain ⟨x, hx, b, hb, heq, h⟩ := hD e he hc
+    exact ⟨x, hperm.mem_iff.mp hx, b, hb, heq, (hno _ _).mpr h⟩
+
+/-- The per-defect verdict answers `holds` on the model's own errors over `graph r` too (the case
+the driver judges when no vertex has two statements). -/
+theorem judgeReports_holds_of_model_one_per_vertex (r : Registry) (lk : Link) (hl : Linked r lk)
+    (hw : WellFormed r) (hk : ModuleKeysDistinct r) (G : Graph) (hG : graph r = some G)
+    (ps : List Mod) (hps : Goyang.Spec.Identity.parts r = some ps) (o : Oracle) (ho : o.Valid) :
+    ∃ res, resolveIdentities o r lk (fun _ => []) = some res ∧
+      ∀ errs, (∀ e ∈ res.errs, e ∈ errs) →
+        judgeReports r G (identityStatements r ps) errs = Verdict.holds := by
+  obtain ⟨res, hres, hA, hB, _⟩ :=
+    errors_are_exactly_the_defects_one_per_vertex r lk hl hw hk G hG ps hps o ho
+  obtain ⟨ps', gf⟩ := graph_facts hG
+  have hpe : ps' = ps := by
+    have := gf.parts
+    rw [hps] at this
+    cases this
+    rfl
+  subst hpe
+  refine ⟨res, hres, ?_⟩
+  intro errs hsub
+  apply judgeReports_holds
+  · intro v hv
+    obtain ⟨m, hm, vs, hvs, rfl⟩ := (gf.verts v).mp (derives_left_vertex gf hv)
+    exact ⟨(vs.1, m, vs.2), Goyang.Lemmas.Identity.mem_fullStmts.mpr ⟨m, hm, vs, hvs, rfl⟩, rfl⟩
+  · intro x hx hd
+    exact ⟨_, hsub _ (hA x hx hd), rfl, locatedAt_at _ _⟩
+  · intro u hu
+    obtain ⟨x, hx, b, hb, rfl, hno⟩ := mem_undefinedBases.mp hu
+    obtain ⟨c, hc, hmem⟩ := hB x hx b hb hno
+    exact ⟨_, hsub _ hmem, hc, locatedAt_at _ _⟩
+
+/-! non-vacuity: two cycles, the lower derived from the upper (the C11-m22 witness,
+corpus/C11/m22-two-cycles-lower-derived-from-upper.json), and one undefined base
+
+```
+module up    { prefix u; identity P1 { base P2; } identity P2 { base P1; } }
+module zdown { prefix d; import up { prefix u; }
+               identity Q1 { base Q2; base u:P1; } identity Q2 { base Q1; }
+               identity Z { base nosuch; } }
+``` -/
+def exModUp : Stmt := .mk "module" true "up" "up.yang" 1 1 [exStmt "namespace" "urn:up", exStmt "prefix" "u",
+  .mk "identity" true "P1" "up.yang" 3 3 [exStmt "base" "P2"],
+  .mk "identity" true "P2" "up.yang" 4 3 [exStmt "base" "P1"]]
+def exModDown : Stmt := .mk "module" true "zdown" "zdown.yang" 1 1 [exStmt "namespace" "urn:zdown", exStmt "prefix" "d",
+  exStmt "import" "up" [exStmt "prefix" "u"],
+  .mk "identity" true "Q1" "zdown.yang" 4 3 [exStmt "base" "Q2", exStmt "base" "u:P1"],
+  .mk "identity" true "Q2" "zdown.yang" 5 3 [exStmt "base" "Q1"],
+  .mk "identity" true "Z" "zdown.yang" 6 3 [exStmt "base" "nosuch"]]
+def exFiles5 : List SrcFile := [⟨"up", [exModUp]⟩, ⟨"zdown", [exModDown]⟩]
+def exR5 : Registry := exLoad exFiles5
+def exG5 : Graph :=
+  { verts := [("up", "P1"), ("up", "P2"), ("zdown", "Q1"), ("zdown", "Q2"), ("zdown", "Z")]
+    edges := [(("up", "P1"), ("up", "P2")), (("up", "P2"), ("up", "P1")), (("zdown", "Q1"), ("zdown", "Q2")),
+      (("zdown", "Q1"), ("up", "P1")), (("zdown", "Q2"), ("zdown", "Q1"))]
+    dangling := [(("zdown", "Z"), "nosuch")], orphans := [], missing := [] }
+theorem example5_graph : survivorGraph exR5 = some exG5 := by decide
+theorem example5_loaded : loadAll exFiles5 = .ok exR5 := exLoad_ok _ (by decide)
+theorem example5_identifierNamed : IdentifierNamed exFiles5 := by
+  intro f hf s hs
+  simp only [exFiles5, List.mem_cons, List.not_mem_nil, or_false] at hf
+  rcases hf with rfl | rfl <;>
+    (simp only [List.mem_singleton] at hs; subst hs; decide)
+/-- The hypotheses of the theorems of this section hold of the example. -/
+example : Linked exR5 (exLink exR5) := linkOK_of_all (by decide)
+example : LoadedOK exR5 := loaded_ok exFiles5 exR5 example5_loaded example5_identifierNamed
+/-- … and those of the one-statement-per-vertex forms: `graph exR5` is `exG5` too (here even in the
+same order), its vertices are distinct, the table keys are distinct. -/
+example : graph exR5 = some exG5 := by decide
+example : WellFormed exR5 :=
+  ⟨regOK_of_entries (by decide), by decide, fun G hG => by
+    have : graph exR5 = some exG5 := by decide
+    rw [this] at hG
+    cases hG
+    show exG5.verts.Nodup
+    decide⟩
+example : ModuleKeysDistinct exR5 := by show (exR5.modules.map (·.1)).Nodup; decide
+example : ((Goyang.Spec.Identity.parts exR5).map fun ps => (identityStatements exR5 ps).map fun x => (x.1, x.2.1.name, x.2.2.line)) =
+    some [(("up", "P1"), "up", 3), (("up", "P2"), "up", 4), (("zdown", "Q1"), "zdown", 4),
+      (("zdown", "Q2"), "zdown", 5), (("zdown", "Z"), "zdown", 6)] := by decide
+/-- The surviving statements: (vertex, declaring module, line of the identity statement). -/
+def exSurv5 : List (Vertex × Mod × Stmt) :=
+  match registrations exR5 with
+  | some R => survivors R
+  | none => []
+example : (registrations exR5).map (fun R => (survivors R).map fun x => (x.1, x.2.1.name, x.2.2.line)) =
+    some [(("up", "P1"), "up", 3), (("up", "P2"), "up", 4), (("zdown", "Q1"), "zdown", 4),
+      (("zdown", "Q2"), "zdown", 5), (("zdown", "Z"), "zdown", 6)] := by decide
+/-- Two cycles, the lower derived from the upper, and a dangling base: the defects are there. -/
+example : Derives exG5 ("up", "P1") ("up", "P1") :=
+  Derives.step (k := ("up", "P2")) (by decide) (Derives.base (by decide))
+example : Derives exG5 ("zdown", "Q2") ("zdown", "Q2") :=
+  Derives.step (k := ("zdown", "Q1")) (by decide) (Derives.base (by decide))
+example : Derives exG5 ("zdown", "Q2") ("up", "P1") :=
+  Derives.step (k := ("zdown", "Q1")) (by decide) (Derives.base (by decide))
+example : exG5.dangling = [(("zdown", "Z"), "nosuch")] := rfl
+/-- What the model reports: the undefined base at the module statement of `zdown`, and one cycle
+error at the identity statement of EVERY member of both cycles. -/
+example : ((resolveIdentities exIdOracle exR5 (exLink exR5) (fun _ => [])).map fun res =>
+      res.errs.map fun e => (e.file, e.line, e.cls)) =
+    some [("zdown.yang", 1, "identity-base-local"), ("up.yang", 3, "cycle"), ("up.yang", 4, "cycle"),
+      ("zdown.yang", 4, "cycle"), ("zdown.yang", 5, "cycle")] := by decide
+/-- The verdict on these errors is `holds`; with the reports of the lower cycle taken away (what the
+seeded defect C11-m22 did: only the upper cycle reported) it is `violates`. -/
+def exIsHolds : Verdict → Bool
+  | .holds => true
+  | _ => false
+def exIsViolates : Verdict → Bool
+  | .violates _ => true
+  | _ => false
+example : ((resolveIdentities exIdOracle exR5 (exLink exR5) (fun _ => [])).map fun res =>
+      exIsHolds (judgeReports exR5 exG5 exSurv5 res.errs)) = some true := by decide
+example : ((resolveIdentities exIdOracle exR5 (exLink exR5) (fun _ => [])).map fun res =>
+      exIsViolates (judgeReports exR5 exG5 exSurv5 (res.errs.filter fun e => e.file != "zdown.yang" || e.cls != "cycle"))) =
+    some true := by decide
+example : ((resolveIdentities exIdOracle exR5 (exLink exR5) (fun _ => [])).map fun res =>
+      exIsViolates (judgeReports exR5 exG5 exSurv5 (res.errs.filter fun e => e.cls == "cycle"))) =
+    some true := by decide
 
 end Goyang.Props.C11
